@@ -98,7 +98,7 @@ def eval_cases(cases):
                 # a consequence of the shifted block boundary surfaced at an earlier row (template variable
                 # undefined, block without loose exit, …): outside this model; status and file are still tied
                 rec["skipped"] = "consequence of a shifted block boundary surfaced first"
-                if (res["out"] is None) != (pred["file"] is None):
+                if pred["fileUnchanged"] != (res["out"] == W.SENTINEL if sentinel else res["out"] is None):
                     rec["ties"].append({"what": "file presence differs", "model": pred, "real": slim(res)})
             elif model_fail:
                 k = pred["fault"]["k"]
@@ -109,7 +109,7 @@ def eval_cases(cases):
                 via_log = "CRITICAL" in res["log"]
                 if pred.get("viaLog") != via_log:
                     rec["ties"].append({"what": "log-vs-exception differs", "model": pred, "real": slim(res)})
-                if (res["out"] is None) != (pred["file"] is None):
+                if pred["fileUnchanged"] != (res["out"] == W.SENTINEL if sentinel else res["out"] is None):
                     rec["ties"].append({"what": "file presence differs", "model": pred, "real": slim(res)})
             if c["_unsupported"]:
                 rec["ties"].append({"what": "workbook outside the abstraction", "detail": c["_unsupported"]})
@@ -239,11 +239,21 @@ def run(ck: core.Check):
 
     # controls
     items = [{"wb": b, "name": b["name"], "sentinel": s} for b in bases for s in (False, True)]
+    # boundary controls: a value of exactly 640 and a category name of exactly 115 characters are valid
+    edge = W.wb_copy(bases[0])
+    edge["name"] = "plain at the limits"
+    for r in edge["sheets"]["main"]["rows"]:
+        if r["type"] in ("save_value", "save_flow_result"):
+            r["message_text"] = "v" * 640
+        if r.get("condition_name"):
+            r["condition_name"] = "C" * 115
+    bases_ctl = bases + [edge]
+    items.append({"wb": edge, "name": edge["name"], "sentinel": False})
     for r in [x for sh in par.pmap(control_worker, core.shard(items, par.NPROC)) for x in sh]:
         ck.case(("control", r["name"], r["sentinel"]), sample={"control": r["name"], "flows": r["flows"]})
         ck.count("control runs")
         for f in r["fails"]:
-            wb = next(b for b in bases if b["name"] == r["name"])
+            wb = next(b for b in bases_ctl if b["name"] == r["name"])
             ck.violation(f, {"kind": "control", "workbook": wb, "sentinel": r["sentinel"], "observed": r["observed"]})
 
     # known-finding stream (deterministic): detected, logged at ERROR level, command goes on
